@@ -140,7 +140,9 @@ PROPS["C15"] = dict(
     design_ref="DESIGN.md §4 C15",
     assumptions=["literals are valid per the October 2021 lexical grammar (invalid literals accepted by the lenient lexer are outside)"],
     stubs=["encoding/json.Encoder.Encode(string): RFC 8259 string encoding as Go implements it, modelled in the engine", "go-arena Alloc returns nil"],
-    quick=[c15("VerifC15StringLiteral", 5, "string", ["valid json"]), c15("VerifC15NumberLiteral", 6, "number", ["number"]), c15("VerifC15BlockString", 4, "blockstring", ["valid json"]), c15("VerifC15BlockString", 5, "blockstring", ["valid json"]),
+    quick=[spec("H-C15c", "./pkg/engine/datasource/graphql_datasource", ["gqlds/c01_exec.go", "gqlds/c01_fed.go", "gqlds/c15_forward.go", "common/zz_json.go", "common/zz_exec.go"], "VerifC15Forward", [],
+                "forwarding through the real pipeline on federation F1: 4 operations using client variables $f: String and $n: Int as arguments of Review.text reached through a single entity fetch, a batch entity fetch, a second entity jump, and under two aliases; state of each variable (omitted / explicit null / value incl. an escaped quote) solver-chosen; the stub subgraph applies the real data source's un-nulling of undefined variables and inspects the variables of the request it receives", ["forwarded"]),
+           c15("VerifC15StringLiteral", 5, "string", ["valid json"]), c15("VerifC15NumberLiteral", 6, "number", ["number"]), c15("VerifC15BlockString", 4, "blockstring", ["valid json"]), c15("VerifC15BlockString", 5, "blockstring", ["valid json"]),
            spec("H-C15b", "./pkg/astnormalization", FWD, "VerifC15Forwarding", [], "template query($v: Int = 10, $w: [Int]){ f(a: {p: $v, q: $w, r: 5, t: \"x\\ty\"}) s(x: $v, y: $w) } with $v in {absent, null, 3} x $w in {absent, null, 7, [7,null]}", ["checked"])],
     thorough=[c15("VerifC15StringLiteral", 7, "string", ["valid json"], 3000), c15("VerifC15NumberLiteral", 8, "number", ["number"]), c15("VerifC15BlockString", 6, "blockstring", ["valid json"], 3000),
               spec("H-C15b", "./pkg/astnormalization", FWD, "VerifC15Forwarding", [], "template with symbolic variable presence (12 combinations)", ["checked"])],
